@@ -1,6 +1,8 @@
 """C06 - filters impose their constraints exactly and idempotently on vectors/matrices.
 
-One stream "filters": every case is run by the implementation and the Lean model (equality) and judged by the
+Streams "filters" and "boundary-sizes" (sizes / entry counts / row lengths / sequence lengths below, at and above
+127/128, 255/256, 1000 - the SparseVector allocation step -, 2000 and, thorough, 32768 / 65536, with the interesting
+content at the high end): every case is run by the implementation and the Lean model (equality) and judged by the
 independent oracle.
 
 Case kinds: `vec` (LAFEM filters and their compositions), `gvec` (the same through Global::Filter / Global::Vector),
@@ -499,6 +501,146 @@ VOLUME_CORPUS = [
     for weights, solvol in (("1/1 2/1 0/1 0/1 1/1 2/1 3/1 5/1", "2/1 -1/1 1/1 4/1"),
                             ("1/2 1/1 0/1 1/1 1/1 1/1 1/1 2/1", "3/1 1/2 1/2 3/1"))]
 
+# ---------------------------------------------------------------------------------------------
+# boundary sizes: the Lean model has unbounded Nat / exact rationals, so narrowing, allocation steps and fixed buffers
+# of the C++ are visible only to the correspondence - and only if the sizes cross the boundaries.
+# Boundaries found in the sources (see also the header of Props/C06.lean):
+#   * SparseVector(Blocked) storage of UnitFilter / UnitFilterBlocked / SlipFilter: allocation increment
+#     min(size, 1000) (sparse_vector.hpp:119,142,817; reallocation branch :393-414; sparse_vector_blocked.hpp:185,208,
+#     443-466,781): every 1000 add() calls (or every `size` calls for size < 1000, reachable with repeated indices) the
+#     arrays are reallocated and copied; unsorted insertion order, then _insertion_sort + duplicate marking with
+#     numeric_limits<IT_>::max() (:52-69, :436-452).
+#   * filter_mat / offdiag / weak: `IndexType j` row loops (unit_filter.hpp:218-333), `int k, l` block loops
+#     (unit_filter_blocked.hpp): no size threshold, rows with many entries exercised anyway.
+#   * FilterSequence: std::deque + linear find_or_add (filter_sequence.hpp:144-154): no fixed array.
+#   * Arch kernels (unit/slip filter, dot, axpy generic): plain loops, no unrolling / remainder handling.
+#   * IT_ = 32-bit index types are not instantiated by this harness (Index = 64 bit everywhere).
+# ---------------------------------------------------------------------------------------------
+BOUNDARY_SIZES = [127, 128, 129, 255, 256, 257, 999, 1000, 1001, 2000, 2001]
+BOUNDARY_SIZES_BIG = [32767, 32768, 65535, 65536, 65537]
+
+
+def gen_boundary_cases(rng, thorough):
+    """sizes just below / at / above the boundaries; the interesting content (repeated indices, unsorted insertion,
+    non-zero values, NaN markers, the constrained rows) sits at the HIGH end of the index range"""
+    cases = []
+    one = Fraction(1)
+
+    def top_entries(n, k, width=1, nan=False):
+        """k entries on the highest indices, unsorted, with repeated indices (the later add wins)"""
+        idx = [n - 1 - (i % max(1, min(n, k - 3))) for i in range(k)]
+        rng.shuffle(idx)
+        idx += [n - 1, n - 2 if n > 1 else n - 1, n - 1]
+        es = []
+        for i in idx:
+            v = [rq(rng, nz=True) for _ in range(width)]
+            if nan and rng.random() < 0.2:
+                v[rng.randrange(width)] = NAN
+            es.append((i, v))
+        return es
+
+    sizes = BOUNDARY_SIZES + (BOUNDARY_SIZES_BIG if thorough else [])
+    for n in sizes:
+        dense = n <= 2001
+        mode = rng.choice(MODES)
+        # unit filter: every dof constrained in DESCENDING insertion order (worst case of the insertion sort, crosses
+        # every allocation step), then repeated indices at the top; big sizes: entries only at the top
+        if dense:
+            es = [(i, [rq(rng, nz=True)]) for i in range(n - 1, -1, -1)] + top_entries(n, 5)
+        else:
+            es = top_entries(n, 24)
+        x = [one] * (n - 3) + [rq(rng, nz=True) for _ in range(3)]
+        f = ("U", 0, n, [(i, v[0]) for i, v in es])
+        cases.append(squeeze("vec %s U %s %s" % (mode, fmt_filter(f), fmt_vector(("D", x)))))
+        # array constructor with n entries (sorted), values at the top non-trivial
+        if dense:
+            f = ("U", 1, n, [(i, one if i < n - 4 else rq(rng, nz=True)) for i in range(n)])
+            cases.append(squeeze("vec %s U %s %s" % (rng.choice(MODES), fmt_filter(f), fmt_vector(("D", x)))))
+        # blocked unit filter with NaN markers at the top, slip filter with n normals of different magnitude
+        if dense:
+            esb = [(i, [one, one]) for i in range(n - 1, -1, -1)] + top_entries(n, 6, 2, nan=True)
+            ess = [(i, [one, Fraction(0)]) for i in range(n - 1, -1, -1)] + top_entries(n, 6, 2)
+        else:
+            esb = top_entries(n, 24, 2, nan=True)
+            ess = top_entries(n, 24, 2)
+        if n <= 2001 or thorough and n <= 32768:
+            xb = [one] * (2 * n - 6) + [rq(rng, nz=True) for _ in range(6)]
+            fb = ("UB", 2, 0, 1, n, esb)
+            cases.append(squeeze("vec %s UB2 %s %s" % (rng.choice(MODES), fmt_filter(fb), fmt_vector(("B", 2, xb)))))
+            fs = ("S", 2, n, ess)
+            cases.append(squeeze("vec %s S2 %s %s" % (rng.choice(MODES), fmt_filter(fs), fmt_vector(("B", 2, xb)))))
+        # mean filters: weights one except at the top
+        if n <= 2001 or thorough and n <= 32768:
+            prim = [one] * (n - 2) + [Fraction(3), Fraction(1, 2)]
+            dual = [one] * (n - 2) + [Fraction(2), Fraction(5)]
+            fm = ("M", 0, n, prim, dual, Fraction(2), dot(prim, dual))
+            cases.append(squeeze("vec %s M %s %s" % (rng.choice(MODES), fmt_filter(fm), fmt_vector(("D", x)))))
+            fc = ("C", [("U", 0, n, [(n - 1, Fraction(7)), (n - 2, Fraction(-3))]), fm])
+            cases.append(squeeze("vec %s C(U,M) %s %s" % (rng.choice(MODES), fmt_filter(fc), fmt_vector(("D", x)))))
+        if n <= 2001:
+            primb = [one] * (2 * n - 2) + [Fraction(3), Fraction(1, 2)]
+            dualb = [one] * (2 * n - 2) + [Fraction(2), Fraction(5)]
+            vol = [dot(primb[j::2], dualb[j::2]) for j in range(2)]
+            fmb = ("MB", 2, 0, n, primb, dualb, [Fraction(1), Fraction(-2)], vol)
+            cases.append(squeeze("vec %s MB2 %s %s" % (rng.choice(MODES), fmt_filter(fmb), fmt_vector(("B", 2, xb)))))
+        # sequences with n members (one entry each, overlapping at the end: the last one wins)
+        if n <= 1001:
+            m = 6
+            members = [("U", 0, m, [(i % m, rq(rng, nz=True))]) for i in range(n)]
+            cases.append(squeeze("vec %s Q(U) %s %s" % (rng.choice(MODES), fmt_filter(("Q", members)),
+                                                        fmt_vector(("D", [rq(rng) for _ in range(m)])))))
+        # CSR: n x n, only the last two rows store entries: row n-2 is full (n entries), row n-1 = {0, n-1};
+        # both constrained (plus a repeated add)
+        if dense:
+            rp = [0] * (n - 1) + [n, n + 2]
+            ci = list(range(n)) + [0, n - 1]
+            val = [rq(rng, nz=True) for _ in ci]
+            f = ("U", 0, n, [(n - 1, one), (n - 2, Fraction(2)), (n - 1, Fraction(3))])
+            for kind in ("mat", "offdiag", "weak"):
+                line = "mat %s U %s %s" % (kind, fmt_filter(f), fmt_csr(n, n, rp, ci, val))
+                if kind == "weak":
+                    vm = [rq(rng, nz=True) for _ in val]
+                    line += " %d %s" % (len(vm), " ".join(map(fq, vm)))
+                cases.append(squeeze(line))
+        # BCSR 2x2: the last block row holds n blocks
+        if n <= 257:
+            rows = 3
+            rp = [0, 0, 1, 1 + n]
+            ci = [0] + list(range(n))
+            val = [rq(rng, nz=True) for _ in range(len(ci) * 4)]
+            fb = ("UB", 2, 0, 1, rows, [(2, [one, NAN]), (1, [one, one]), (2, [Fraction(2), Fraction(3)])])
+            cases.append(squeeze("matb mat 2 2 %s %s" % (fmt_filter(fb), fmt_csr(rows, max(n, 3), rp, ci, val))))
+    return cases
+
+
+def boundary_describe(case):
+    t = case.split()
+    keys = ["op:%s-%s" % (t[0], t[1]), "kind:%s" % (t[2] if t[0] == "vec" else t[1])]
+    try:
+        if t[0] == "vec":
+            mode, sig, f, v = parse_vec_case(case)
+            keys.append("vector-size:%d" % max(len(l) for l in vec_leaves(v)))
+            ne = max((len(m[3] if m[0] != "UB" else m[5]) for m in filter_leaves(f) if m[0] in ("U", "UB", "S")), default=0)
+            keys.append("filter-entries:%d" % ne)
+            if f[0] == "Q":
+                keys.append("sequence-members:%d" % len(f[1]))
+        else:
+            c = Tk(case)
+            c.tok(), c.tok()
+            if t[0] == "mat":
+                c.tok()
+            else:
+                c.nat(), c.nat()
+            read_filter(c)
+            rows, cols = c.nat(), c.nat()
+            rp = c.nlist()
+            keys.append("matrix-rows:%d" % rows)
+            keys.append("longest-row:%d" % max(rp[i + 1] - rp[i] for i in range(rows)))
+    except Exception:
+        keys.append("undescribed")
+    return keys
+
+
 CORPUS = VOLUME_CORPUS + [
     # the excluded point of filter_mat: constrained rows without a stored diagonal entry become zero rows
     "mat mat U U 0 3 2 0 5/1 2 6/1 3 3 4 0 2 3 4 4 0 2 0 2 4 1/1 2/1 3/1 4/1",
@@ -777,6 +919,14 @@ def consistent_mean(f):
     return f[2] == 2 or f[3] == 0 or all(f[7][j] == dot(f[4][j::b], f[5][j::b]) for j in range(b))
 
 
+def is_multiple(d, dirn):
+    """d = t * dirn for some t (linear time: compare with the first non-zero entry of dirn)"""
+    q0 = next((q for q, a in enumerate(dirn) if a != 0), None)
+    if q0 is None:
+        return all(a == 0 for a in d)
+    return all(d[p] * dirn[q0] == d[q0] * dirn[p] for p in range(len(d)))
+
+
 def leaf_predicates(mode, f, x, y):
     """the clauses of the property for ONE leaf filter: x = vector before, y = after (both inside the domain)"""
     k = f[0]
@@ -836,11 +986,9 @@ def leaf_predicates(mode, f, x, y):
             xs, ys, ps, ds = x[j::b], y[j::b], prim[j::b], dual[j::b]
             w, dirn = (ps, ds) if mode in ("rhs", "def") else (ds, ps)
             d = [a - c for a, c in zip(ys, xs)]
-            for p in range(len(d)):
-                for q in range(p + 1, len(d)):
-                    if d[p] * dirn[q] != d[q] * dirn[p]:
-                        return "component %d: the change is not a multiple of the %s vector" % (
-                            j, "dual" if mode in ("rhs", "def") else "primal")
+            if not is_multiple(d, dirn):
+                return "component %d: the change is not a multiple of the %s vector" % (
+                    j, "dual" if mode in ("rhs", "def") else "primal")
             if vol[j] == dot(ps, ds):
                 want = sol[j] * vol[j] if mode == "sol" else Fraction(0)
                 if dot(ys, w) != want:
@@ -1161,10 +1309,8 @@ def oracle_gmean(case, out):
         if sum((a * b * c for a, b, c in zip(w, y, wgt)), Fraction(0)) != 0:
             return "global weighted mean not zero after the filter"
         d = [a - b for a, b in zip(y, x)]
-        for p in range(len(d)):
-            for q in range(p + 1, len(d)):
-                if d[p] * dirn[q] != d[q] * dirn[p]:
-                    return "the change is not a multiple of the weighting vector"
+        if not is_multiple(d, dirn):
+            return "the change is not a multiple of the weighting vector"
     elif y != x:
         return "empty global mean filter changed the vector"
     if y2 != y:
@@ -1340,6 +1486,12 @@ def main(argv):
             (gen_cases(rng, 20000) if args.tier == "quick" else gen_cases(rng, 150000, big=True))
     st = vlib.Stream("filters", cases, [binary], vlib.driver_cmd(PROP), oracle=oracle, nontrivial=nontrivial,
                      describe=describe, signature=signature, canon=canon)
+    brng = random.Random(args.seed * 7919 + 606)
+    bcases = [] if args.replay else gen_boundary_cases(brng, args.tier == "thorough")
+    if args.tier == "thorough" and not args.replay:
+        bcases += gen_boundary_cases(brng, False) + gen_boundary_cases(brng, False)
+    st_b = vlib.Stream("boundary-sizes", bcases, [binary], vlib.driver_cmd(PROP), oracle=oracle, nontrivial=nontrivial,
+                       describe=boundary_describe, signature=signature, canon=canon)
     stats_rule = ("random unit / unit-blocked / slip / mean / mean-blocked / none filters and %d chain, sequence, tuple and "
                   "power compositions of them (depth <= 4, overlapping index sets included) on vectors of 0..8 (thorough: "
                   "..40) dofs, index sets empty / all / random / first+last / single / with duplicates, both constructors, "
@@ -1347,7 +1499,7 @@ def main(argv):
                   "rectangular CSR and BCSR matrices incl. rows without stored diagonal and empty rows; every case is "
                   "applied twice; non-trivial = inside the domain and some member constrains 0 < |idx| < n entries "
                   "(mean filter: >= 2 dofs)" % len(VEC_SIGS))
-    rc = vlib.run_pipeline(PROP, args.tier, args.seed, lean, [st], t0, assumptions=[
+    rc = vlib.run_pipeline(PROP, args.tier, args.seed, lean, [st, st_b], t0, assumptions=[
         "Index modelled as unbounded Nat; indices of filter entries are < size (ASSERT only in debug builds)",
         "NaN is modelled by one marker value of the exact scalar (only as a filter value); Math::isnan<Q> is supplied by the harness",
         "aborts of the exact scalar on division by zero stand for the NaN/Inf results of floating point (zero normal, "
